@@ -93,6 +93,12 @@ def run(ctx):
                 reqs.append(flow_request(kt, "rollover", kt2))
     for kt, kt2 in [("ecdsa-p256", "ecdsa-p384"), ("rsa2048", "ed25519"), ("ed448", "ecdsa-p521")]:
         reqs.append(flow_request(kt, "both", kt2))
+    # a CA whose URLs are valid but not in normalised form (mixed-case host): the signed url must be the URL as the CA gave it
+    for flow, kt2 in (("register", None), ("rollover", "ecdsa-p384")):
+        q = flow_request("ecdsa-p256", flow, kt2)
+        q["cas"] = [dict(q["cas"][0], url_host="LocalHost")]
+        q["meta"]["flow"] = flow + "+mixed-case-host"
+        reqs.append(q)
     for kt, kt2, kt3 in [("ecdsa-p256", "ecdsa-p384", "ecdsa-p521"), ("ecdsa-p256", "ed25519", "ecdsa-p256"), ("ed25519", "ecdsa-p384", "ed448")]:
         reqs.append(flow_request(kt, "double-rollover", (kt2, kt3)))
     obs = e1.run_all(ctx.pool, reqs, 120.0)
